@@ -1,6 +1,7 @@
 (* C20 — Bounded state: caps respected, statistics consistent (no leaks at quiescence is checked on
    workloads, see C06/C20 checks). Statements only. *)
 From MLV Require Import gen.Params model.Bytes model.Lru model.Server model.Cache model.Check20 proofs.CacheProofs proofs.ServerProofs proofs.CapsProofs.
+From MLV Require model.Calls proofs.CallsProofs.
 Open Scope N_scope.
 
 (* for every history of finished lookups (and cache hits), each statistic of each routing table equals
@@ -57,6 +58,16 @@ Theorem C20_read_promotes : forall (V : Type) k (l : lru V) v, lru_peek k l = So
   l_ents (snd (lru_get k l)) = (k, v) :: assoc_remove k (l_ents l).
 Proof. intros V. exact (@lru_get_shape V). Qed.
 
+(* quiescence of the per-call state (Calls.v, see C06): in every state reachable by API calls and ticks, once no
+   lookup and no put is active nobody is parked - no sender is left behind *)
+Theorem C20_quiescent_nobody_parked : forall evs,
+  let s := fst (Calls.crun Calls.cstate0 evs) in
+  Calls.lookups s = [] -> Calls.puts s = [] -> Calls.gsend s = [] /\ Calls.psend s = [].
+Proof.
+  intros evs s L P. pose proof (CallsProofs.quiescent_nobody_parked s (CallsProofs.inv_run evs Calls.cstate0 CallsProofs.inv0) L P) as H.
+  unfold Calls.parked in H. apply app_eq_nil in H as [H1 H2]. split; [now apply map_eq_nil in H1|now apply map_eq_nil in H2].
+Qed.
+
 Print Assumptions C20_stores_never_exceed_capacity.
 Print Assumptions C20_new_server_within_capacity.
 Print Assumptions C20_write_evicts_least_recently_used.
@@ -65,3 +76,4 @@ Print Assumptions C20_stats_mirror_cache.
 Print Assumptions C20_counts_never_underflow.
 Print Assumptions C20_cache_capped.
 Print Assumptions C20_one_entry_per_target.
+Print Assumptions C20_quiescent_nobody_parked.
